@@ -31,7 +31,13 @@ theorem ionic_strength_source_expressions (b z tot a c rtol atol : ℝ) :
   · simp only [allcloseLim, pabs_eq]
 
 /-- the one hand-typed line of `allclose` (scalar path): its return statement -/
-theorem allclose_return_guard : allcloseReturnText = "d <= lim" := by decide
+theorem allclose_return_guard : allcloseReturnText = "np.all(d <= lim)" := by decide
+
+/-- the array branch of `allclose` (scalar `lim`, or `lim` and `d` broadcast to their common shape, then element-wise) is
+    hand-modelled by `allcloseB`: its source text -/
+theorem allclose_array_branch_guard : allcloseArrayBranchText =
+    "try: len(lim) except TypeError: return np.all([_d <= lim for _d in d]) else: if len(lim) != len(d): lim, d = (lim + 0 * d, d + 0 * lim) return np.all([_d <= _lim for _d, _lim in zip(d, lim)])" := by
+  rfl
 
 /-- signatures (parameters and defaults as written in the source): the defaults that the specialised translations and the
     hand model rely on — `warn=True`, `charges/substances=None`, `substance_factory=Substance.from_formula`; `b0=1`,
@@ -335,6 +341,32 @@ theorem allclose_paths_spec (m : ℕ) (a b atol : List ℝ) (x rtol t : ℝ) (ha
       simpa [List.getD_eq_getElem?_getD, List.getElem?_replicate, hj] using h j hj
   · intro c hc
     simp [allcloseList, Ne.symm hc]
+
+/-- **`allclose` over the full broadcast shape of (a, b, atol)**: when the three shapes broadcast to a common length `n`, the result is
+    ONE truth value — every element satisfies `|aᵢ − bᵢ| ≤ |aᵢ|·rtol + atolᵢ` (numbers and one-element arrays repeated); a pair
+    (a, b) that cannot be broadcast compares unequal, an `atol` that cannot be broadcast is refused (`ValueError`). -/
+theorem allclose_broadcast_spec (a b atol : Arg ℝ) (rtol : ℝ) :
+    (∀ sd sl n, bcast a.size b.size = some sd → bcast a.size atol.size = some sl → bcast sd sl = some (some n) →
+      ∃ r, allcloseB a b rtol atol = .ok r ∧
+        (r = true ↔ ∀ i < n, |a.get 0 i - b.get 0 i| ≤ |a.get 0 i| * rtol + atol.get 0 i)) ∧
+    (bcast a.size b.size = none → allcloseB a b rtol atol = .ok false) ∧
+    (∀ sd, bcast a.size b.size = some sd → (bcast a.size atol.size = none ∨ ∃ sl, bcast a.size atol.size = some sl ∧ bcast sd sl = none) →
+      allcloseB a b rtol atol = .error .valueError) := by
+  have hsc : ∀ u v w : ℝ, allclose u v rtol w = true ↔ |u - v| ≤ |u| * rtol + w := by
+    intro u v w
+    simp only [allclose, allcloseD, allcloseLim, pabs_eq, decide_eq_true_eq]
+  refine ⟨?_, ?_, ?_⟩
+  · intro sd sl n h1 h2 h3
+    have e : allcloseB a b rtol atol = .ok ((List.range n).all fun i =>
+        allclose (a.get ((0 : Nat) : ℝ) i) (b.get ((0 : Nat) : ℝ) i) rtol (atol.get ((0 : Nat) : ℝ) i)) := by
+      simp only [allcloseB, h1, h2, h3]
+    refine ⟨_, e, ?_⟩
+    simp only [List.all_eq_true, List.mem_range, hsc, Nat.cast_zero]
+  · intro h; simp only [allcloseB, h]
+  · intro sd h1 h
+    rcases h with h2 | ⟨sl, h2, h3⟩
+    · simp only [allcloseB, h1, h2]
+    · simp only [allcloseB, h1, h2, h3]
 
 /-- the base class `_ActivityProductBase` does nothing when called (returns `None`) -/
 theorem base_class_call_is_none (stoich c : List ℝ) : baseClassCall stoich c = none := rfl
@@ -643,6 +675,18 @@ example : ∃ vals w, ionicStrengthVec [[(1 : ℝ), 2], [3, 6]] [3, -1] true = .
   obtain ⟨vals, w, h1, h2, _⟩ := vectorised_spec 2 ([1, 2], 3) [([3, 6], -1)] true
     (by intro q hq; simp only [List.mem_cons, List.not_mem_nil, or_false] at hq; rcases hq with rfl | rfl <;> rfl)
   exact ⟨vals, w, by simpa using h1, h2⟩
+
+/-- the repaired broadcast: a one-element array against a longer one is compared on EVERY element (`[1]` vs `[1, 5, 9]` differ) -/
+example : allcloseB (.arr [(1 : ℝ)]) (.arr [1, 5, 9]) (1 / 10 ^ 8) (.scalar 0) = .ok false := by
+  obtain ⟨r, hr, hiff⟩ := (allclose_broadcast_spec (.arr [(1 : ℝ)]) (.arr [1, 5, 9]) (.scalar 0) (1 / 10 ^ 8)).1
+    (some 3) (some 1) 3 rfl rfl rfl
+  rw [hr]
+  cases r with
+  | false => rfl
+  | true =>
+    have h := hiff.mp rfl 1 (by norm_num)
+    simp only [Arg.get, List.getD_eq_getElem?_getD] at h
+    norm_num at h
 
 /-- water at 20 °C lies in the domain of `A_paths_agree` / `B_paths_agree` -/
 example : |aConst (80.1 : ℝ) 293.15 998.2071 1 constFaraday constAvogadro constVacuumPermittivity constBoltzmann constPi
